@@ -177,7 +177,12 @@ func runOverlayTest(cfg *RunCfg, gp string) (string, bool) {
 	cmd.Stderr = &out
 	cmd.Run()
 	text := out.String()
-	ok := strings.Contains(text, confirm)
+	ok := false
+	for _, c := range strings.Split(confirm, "|") {
+		if c != "" && strings.Contains(text, c) {
+			ok = true
+		}
+	}
 	return trunc(text, 6000), ok
 }
 
